@@ -108,3 +108,34 @@ Theorem C12_redirect_addresses_target : forall m a p',
                /\ unquote rest = lstrip_slash p'.
 Proof. exact redirect_url_addresses_target. Qed.
 Print Assumptions C12_redirect_addresses_target.
+
+(* C12_converges, one hop (stronger than C12_converges_partial on the router side): after a slash or
+   merged-slash redirect to the path p', the matcher answers the follow-up request with a direct match
+   (MOk r' v'): no further slash / merged-slash redirect, no NotFound / MethodNotAllowed.  The adapter
+   then returns that match, unless redirect_defaults makes the URL builder canonicalise it (alias / defaults).
+   rule_wf2: the C03 grammar - path converter only as trailing segment, no empty literal segment, no variable
+   segment that matches the empty text.  No assumption on merge_slashes settings.
+   Still only checked by the harness (judge_c12 follows every redirect): that r' is the rule that caused the
+   redirect with the same arguments - it holds for the plain merged-slash redirect by determinism (the follow-up
+   repeats the very search that found the rule), for the slash redirects r' is a priority-minimal rule serving
+   the target (C03_priority), among whose serving candidates the causing rule is (C12_converges_partial). *)
+Theorem C12_converges_one_hop : forall m a p me u,
+  (forall r, In r (m_rules m) -> rule_wf2 r = true) ->
+  router_match m a p me = RedirectTo u ->
+  (exists p', u = make_redirect_url m a (quote safe_redirect p') None
+     /\ exists r' v', matcher_run m (trie_of m) (domain_part m a) p' (upper me) (a_websocket a) = MOk rule (list (str * value)) r' v'
+        /\ forall p2, path_part p2 = p' ->
+             router_match m a p2 me = Match r' (dict_update v' (r_defaults r'))
+             \/ (m_redirect_defaults m = true
+                 /\ ((exists u', router_match m a p2 me = RedirectTo u') \/ (exists e, router_match m a p2 me = Raised e))))
+  \/ (exists r v, In r (m_rules m) /\ admits m r (request_parts m a p) = ADirect _ v /\ m_redirect_defaults m = true
+        /\ (r_alias r = true /\ alias_redirect_url m a (upper me) r (dict_update v (r_defaults r)) = BOk u
+            \/ get_default_redirect m a (upper me) r (dict_update v (r_defaults r)) = BOk (Some u))).
+Proof. exact converges_one_hop. Qed.
+Print Assumptions C12_converges_one_hop.
+
+Example C12_converges_one_hop_example :
+  (forall r, In r (m_rules (mk_map [ex_r3])) -> rule_wf2 r = true)
+  /\ exists u, router_match (mk_map [ex_r3]) ex_adapter_app [47; 47; 101; 118; 105; 108; 46; 99; 111; 109; 47; 51] GET = RedirectTo u.
+Proof. exact ex_one_hop_hyps. Qed.
+Print Assumptions C12_converges_one_hop_example.
